@@ -171,8 +171,8 @@ def check(ctx):
               "term = (c_si * c_sj * A_j) * ab[IDX_<alias of s>] / A_s / Hnuclei with c from the row/column element names and A_j from the column element",
               expected="(ci*cj*elements[j].A) * ab[IDX_{spec.alias}] / {spec.A} / Hnuclei", found=detail[:300])
     g = [(simp(c), p) for c, p in tf.guards]
-    want_g = {repr(("unop", "Not", ("attr", s, "is_electron"))), repr(ci), repr(cj)}
-    g_ok = len(g) == 1 and g[0][1] is True and g[0][0][0] == "bool" and g[0][0][1] == "And" and {repr(x) for x in g[0][0][2]} == want_g
+    # guards arrive as atomic conditions in positive form (valueflow.split_guard): {not electron, ci, cj} in any spelling
+    g_ok = {(repr(c), p) for c, p in g} == {(repr(("attr", s, "is_electron")), False), (repr(ci), True), (repr(cj), True)}
     ctx.check(g_ok, "R1", "matrix:term-guard", (FILE, tf.line), "a term exists iff the species is not the electron and contains both elements",
               expected="not spec.is_electron and ci and cj", found="; ".join(show(c)[:160] for c, _ in g))
 
